@@ -216,7 +216,7 @@ def run_case(spec):
         else:
             sc = float(rng.choice([0.25, 0.5, 2.0, 4.0, 8.0, 3.0, 0.3]))
             # (integer-typed terms become float in the scaled twin: int @ float and float @ float use different kernels)
-            bitwise = sc in (0.25, 0.5, 2.0, 4.0, 8.0) and not p.notes.get("int_h0")
+            bitwise = sc in (0.25, 0.5, 2.0, 4.0, 8.0) and not p.notes.get("int_h0") and not p.notes.get("input_basis_term")
         def scx(n, M):
             out = M.copy()
             for idx in np.ndindex(*M.shape):
